@@ -2,6 +2,9 @@
 # tools/benigncheck.sh <patch> <id> [checks...]: applies a behaviour-preserving change, confirms that the
 # repository's tests pass, runs the quick checks (all by default) and reports any that do not exit 0. Restores /repo.
 set -u
+# a change under test may remove or replace device nodes it is handed (as root): put them back
+guard_dev() { [ -c /dev/full ] || { rm -f /dev/full; mknod -m 666 /dev/full c 1 7 && echo "note: /dev/full had been replaced and was restored" >&2; }; [ -c /dev/null ] || { rm -f /dev/null; mknod -m 666 /dev/null c 1 3; }; }
+guard_dev
 PATCH=$1; ID=$2; shift 2
 CHECKS=${*:-C01 C02 C03 C04 C05 C06 C07 C08 C09 C10 C11 C12 C13 C14 C15 C16 C17}
 export GOFLAGS=-mod=mod GOPROXY=off
@@ -22,3 +25,4 @@ for c in $CHECKS; do
   fi
 done
 echo "BENIGN $ID tests=$TESTS verif-tag=$TAGB alarms:${RES:- none}"
+guard_dev
